@@ -31,8 +31,14 @@ class JSONFormat(rt.Format):
     def extra_checks(self, model, fm0, text0, path, out):
         try:
             fm_file = JSONReader(path).transform()
-            fm_obj = JSONReader.parse_json(json.loads(text0))
-            engine.tick(2)
+            obj = json.loads(text0)
+            fm_obj = JSONReader.parse_json(obj)
+            fm_obj2 = JSONReader.parse_json(obj)
+            engine.tick(3)
+            if obj != json.loads(text0):
+                out.append(Fail('parse_json-modifies-its-argument', None))
+            if bd.observe(fm_obj2) != bd.observe(fm_obj):
+                out.append(Fail('parse_json-second-call-differs', {'first': cm._safe_str(bd.observe(fm_obj)), 'second': cm._safe_str(bd.observe(fm_obj2))}))
             if bd.observe(fm_obj) != bd.observe(fm_file):
                 out.append(Fail('parse_json!=file', {'obj': cm._safe_str(bd.observe(fm_obj)), 'file': cm._safe_str(bd.observe(fm_file))}))
         except Exception as exc:  # noqa: BLE001
@@ -85,6 +91,9 @@ def cases(tier, seed):
     n = BOUNDS[tier]
     for m in sp.structures_upto(n):
         if in_fragment(m):
+            yield ('S', m)
+    for m in sp.structures_upto(4, star=True):
+        if in_fragment(m) and any(b == -1 and len(k) > 1 for (_p, _a, b, k) in sh.relations(m)) and not any(b == -1 and len(k) == 1 for (_p, _a, b, k) in sh.relations(m)):
             yield ('S', m)
     carriers1 = [m for m in sp.structures_upto(3 if tier == 'quick' else 4) if in_fragment(m)]
     carriers2 = [m for m in sp.structures_upto(2 if tier == 'quick' else 3) if in_fragment(m)]
